@@ -390,7 +390,13 @@ def owners(repo: Repo, fi: FunctionInfo, depth: int = 0) -> set[str]:
         for g in repo.functions.values():
             if isinstance(g.node, ast.Lambda):
                 continue
-            for x in ast.walk(g.node):
+            # (calls written in a nested def belong to that def, not to its parent)
+            stack = list(ast.iter_child_nodes(g.node))
+            while stack:
+                x = stack.pop()
+                if isinstance(x, (ast.FunctionDef, ast.AsyncFunctionDef, ast.Lambda)):
+                    continue
+                stack.extend(ast.iter_child_nodes(x))
                 if isinstance(x, ast.Call):
                     f = x.func
                     nm = f.attr if isinstance(f, ast.Attribute) else getattr(f, "id", None)
@@ -402,9 +408,10 @@ def owners(repo: Repo, fi: FunctionInfo, depth: int = 0) -> set[str]:
     for g in _CALLERS_CACHE[key].get(root.name, []):
         if g is root or g.qualname == root.qualname:
             continue
-        same_scope = (g.module is root.module) and (root.cls is None or g.cls is root.cls
-                                                    or g.cls is None)
-        if not same_scope:
+        # (a method is called from its class; a module-level helper may be shared by
+        # several modules of the package)
+        if root.cls is not None and not (g.module is root.module and (
+                g.cls is root.cls or g.cls is None)):
             continue
         gr = g
         while gr.parent is not None:
